@@ -784,6 +784,9 @@ func runC02(r *Run) {
 	// every copying entry point hands Decode a Raw that holds exactly the given bytes: the verdict is that of
 	// this byte string, whatever the receiving message held before (shared with C08)
 	r.Borrow("C08", map[string]string{"C08.copy": "C02.entry"})
+	// a malformed input is rejected by an error return: every guard of Decode stands before the reads it protects
+	// (the bounds obligations of the decode closure, shared with C01)
+	r.Borrow("C01", map[string]string{"C01.bounds": "C02.bounds"})
 }
 
 func sortedKeysI(m map[string]ssa.Instruction) []string {
